@@ -213,7 +213,13 @@ def model_prog(cases):
         fs = " ;; ".join(F.to_proto(c["inl"][nm]) for nm, _ in c["defs"])
         lines.append("prog | %s | %d | %s" % (fs, c["n"], disc.sigs(c["data"])))
     res = []
-    for o in common.driver_run(lines):
+    # the same program through the update visitor translated from the source (`proggen`, Rtamt/Py/RunGlue.lean)
+    gens = common.driver_run([l.replace("prog |", "proggen |", 1).replace(" | %d | " % c["n"], " | 0 | %d | " % c["n"], 1)
+                              for l, c in zip(lines, cases)])
+    for o, g in zip(common.driver_run(lines), gens):
+        if o.strip() != g.strip():
+            res.append(("err", "the update visitor translated from the source gives %r, the mirror %r" % (g.strip()[:200], o.strip()[:200])))
+            continue
         if o.startswith("ok"):
             rounds = [[common.b2f(x) for x in r.split()] for r in o[2:].strip().split(";")] if o[2:].strip() else []
             res.append(("ok", rounds))
